@@ -43,6 +43,12 @@ def judge_text(w, st, t, s, l, depth=0, oid=None):
                 b = slen(base, w.facts)
             if a == s and b == s + l:
                 return ('ok', 'slice of %r' % base)
+            # slice of a sub-string that starts `bias` characters into the query: S[start - bias : start - bias + length]
+            d = s - a
+            if b is not None and len(d.t) == 1 and d.c == 0 and list(d.t.values()) == [1] and b - a == l:
+                atom = list(d.t)[0]
+                if isinstance(atom, tuple) and atom[0] == 'var':
+                    return ('ok', 'slice of %r relative to the bias %s' % (base, show_atom(atom)))
             return ('incoherent', 'text is %r[%r:%r] but start=%r, start+length=%r' % (base, a, b, s, s + l))
         if base.kind == 'otext':
             o2 = base.obj
